@@ -1,7 +1,7 @@
 """CPython cross-check of the symbolic interpreter (pyvc/xcheck.py): summary of a property's last thorough run.
 
 usage: python3-vt tools/xcheck_report.py <PROP> [-v]                 print coverage.xcheck from evidence/<PROP>.json
-       python3-vt tools/xcheck_report.py <PROP> --run [task index..]  run ONLY the cross-check now (no obligation is
+       python3-vt tools/xcheck_report.py <PROP> --run [-j N] [task index..]  run ONLY the cross-check now (no obligation is
                                                                      solved, nothing is written): for debugging
 """
 import importlib
@@ -35,16 +35,15 @@ def show(x, verbose=False):
             print(f"   note: {n}")
 
 
-def run(prop, idxs):
+def run_one(arg):
+    prop, i = arg
     from pyvc import contract as C, xcheck
     from pyvc.ctx import Ctx, PathEnd
     from pyvc.values import OutOfSubset
     mod = importlib.import_module(f"props.{prop.lower()}")
     tasks = mod.tasks()
     per = []
-    for i, t in enumerate(tasks):
-        if not hasattr(t, "contract") or (idxs and i not in idxs):
-            continue
+    for i, t in [(i, tasks[i])]:
         c = t.contract
         try:
             units = t.plan("thorough")
@@ -76,6 +75,19 @@ def run(prop, idxs):
         print(f"[{i}] {t.name}: units={len(units)} in_scope={r['paths_in_scope']} checked={r['paths_checked']} "
               f"agree={r['agree']} mismatches={len(r['mismatches'])} skipped={r['skipped']}", flush=True)
         per.append(r)
+    return per
+
+
+def run(prop, idxs, jobs):
+    from pyvc import xcheck
+    mod = importlib.import_module(f"props.{prop.lower()}")
+    todo = [(prop, i) for i, t in enumerate(mod.tasks()) if hasattr(t, "contract") and (not idxs or i in idxs)]
+    if jobs > 1:
+        import multiprocessing as mp
+        with mp.get_context("fork").Pool(jobs, maxtasksperchild=1) as pool:
+            per = [r for rs in pool.imap(run_one, todo) for r in rs]
+    else:
+        per = [r for a in todo for r in run_one(a)]
     return xcheck.merge(per)
 
 
@@ -87,8 +99,9 @@ def main():
     prop = args[0].upper()
     verbose = "-v" in args
     if "--run" in args:
-        idxs = [int(a) for a in args[1:] if a.isdigit()]
-        x = run(prop, idxs)
+        jobs = int(args[args.index("-j") + 1]) if "-j" in args else 1
+        idxs = [int(a) for k, a in enumerate(args[1:], 1) if a.isdigit() and args[k - 1] != "-j"]
+        x = run(prop, idxs, jobs)
         print()
         show(x, verbose)
         return 3 if x["mismatches"] else 0
